@@ -29,7 +29,7 @@ TECHNIQUE += '; models built by the g2e ANTLR actions (interpreted, composed as 
 LEVEL_TEXT += ' Added clause: ANTLR-translated models keep operator/operand binding when printed (name=~x, ~~x, ~( a | b )).'
 TECHNIQUE += '; every join kind over multi-line operands'
 TECHNIQUE += "; blanks and tabs in patterns and regex directives; printers interpreted with the repository's trim()"
-TECHNIQUE += '; multi-line leaves under every indenting wrapper; string parameters spelled like the constants of the grammar language; the railroad walker and railmath interpreted on stand-in models: completes, one display width per drawing (C13.R6)'
+TECHNIQUE += '; definition order of overriding rules (R7, GrammarSemantics.rule interpreted on a scripted sequence of definitions); multi-line leaves under every indenting wrapper; string parameters spelled like the constants of the grammar language; the railroad walker and railmath interpreted on stand-in models: completes, one display width per drawing (C13.R6)'
 LEVEL_NOTE = ('Trusted: the checker\'s reader of the grammar language (validated on every run by C15: it reads tatsu/_tatsu.ebnf to the '
               'same IR as the shipped generated parser).')
 EXPLANATION = ('Static analysis of /repo sources, TatSu not imported. _pretty methods are interpreted by the whitelisted evaluator on '
@@ -707,4 +707,44 @@ def r6_railroads(a, tier):
     return rep
 
 
-RULES = [r_chain, r1_printers, r2_roundtrip, r3_nothing_dropped, r4_display_width, r5_antlr_models, r6_railroads]
+def r7_definition_order(a, tier):
+    from ..modelinterp import Bound, Hook, ModelInterp
+    from ..minieval import Obj
+    rep = RuleReport(
+        'C13.R7',
+        'the rules of a model are stored in an order its pretty text can be read in: a rule may include (`>base`) or extend (`r < base`) only rules '
+        'defined BEFORE it, and Grammar._pretty prints the rules in stored order. GrammarSemantics.rule, interpreted on a scripted sequence of '
+        'definitions (a, b, then `@override a` whose body refers to b), must leave the overriding definition AFTER the rules it may refer to - a '
+        'definition that keeps the position of the rule it replaces yields a text in which `a: >b ...` stands before `b`',
+        floor=1,
+    )
+    fn = a.p.func('tatsu.peg.semantics.GrammarSemantics.rule')
+
+    def define(me, name, decorators):
+        node = Obj(name=name, decorators=list(decorators), base=None, params=None, kwparams=None, exp='EXP')
+        it = ModelInterp(a, {'g': Hook(None, Rule=Hook(lambda **kw: ('rule', kw.get('name'), tuple(kw.get('decorators') or ()))),
+                                       BasedRule=Hook(lambda **kw: ('based', kw.get('name'))))})
+        it.call_bound(Bound(me, fn), [node], {})
+    from ..modelinterp import Stub
+    me = Stub('tatsu.peg.semantics.GrammarSemantics', rulemap={}, new_name=Hook(lambda n: None), known_name=Hook(lambda n: None))
+    try:
+        define(me, 'a', [])
+        define(me, 'b', [])
+        define(me, 'a', ['override'])
+    except Unsupported as e:
+        raise AnalysisError(f'C13.R7: cannot interpret GrammarSemantics.rule: {e}') from e
+    order = list(me._attrs['rulemap'])
+    final_a = me._attrs['rulemap'].get('a')
+    overridden = isinstance(final_a, tuple) and 'override' in (final_a[2] if len(final_a) > 2 else ())
+    ok = overridden and order.index('a') > order.index('b')
+    rep.add({'definitions': ['a', 'b', '@override a (may refer to b)'], 'stored_order': order, 'overriding_definition_stored': overridden, 'after_the_rules_it_may_refer_to': ok})
+    if not overridden:
+        rep.fail(fn.qualname, 'override-not-stored', f'after `a`, `b`, `@override a` the stored rule a is {final_a!r}: the overriding definition is not the one kept', fn.loc)
+    elif not ok:
+        rep.fail(fn.qualname, 'override-keeps-position', f'after the definitions a, b, `@override a` the rules are stored as {order}: the overriding definition keeps the position of '
+                 f'the rule it replaces, in front of b, which its body may include or extend - Grammar._pretty prints `a: >b ...` before `b`, and that text does not recompile '
+                 f'("rule b not yet defined")', fn.loc)
+    return rep
+
+
+RULES = [r_chain, r1_printers, r2_roundtrip, r3_nothing_dropped, r4_display_width, r5_antlr_models, r6_railroads, r7_definition_order]
